@@ -885,6 +885,8 @@ fn do_request(line: &str, out: &mut Out, st: &mut Stats) {
                 out.case(line, "bad-request", "SKIP:bad request");
                 return;
             };
+            // the value of an API define may carry an escaped line break (fix 3c81ed5: rejected as InvalidDefine)
+            let defs: Vec<(String, String)> = defs.into_iter().map(|(n, v)| (n, unescape(&v))).collect();
             let mut files = vec![("main.rssl".to_string(), unescape(rest[0]))];
             for f in &rest[1..] {
                 let p: Vec<&str> = f.splitn(2, '=').collect();
